@@ -103,6 +103,29 @@ def judge(chk, fi) -> Tuple[List[Tuple[str, str]], int]:
                      and (s._args[1].start, s._args[1].stop, s._args[1].step) not in ((None, -1, None), (0, -1, None))]
             if other:
                 bad.setdefault("spread-to-days", f"the spread series is cut by `{canon(other[0])[-40:]}`: only the open-ended final row may go {ctx}")
+            # every day of the spread series reaches the result: the calendar may add days (outer merge / join), never select among them
+            for c in [x for x in sym_walk(r) if isinstance(x, Sym) and x._op == "call" and isinstance(x._args[0], Sym) and x._args[0]._op == "attr"]:
+                recv, meth = x_recv_meth = c._args[0]._args
+                pos, kw = c._args[1], dict(c._args[2])
+                in_recv = isinstance(recv, Sym) and _contains(recv, a0)
+                in_args = any(_contains(a_, a0) for a_ in list(pos) + list(kw.values()) if isinstance(a_, (Sym, list, tuple)))
+                if not (in_recv or in_args):
+                    continue
+                lost = None
+                if meth in ("merge", "join") and (in_recv != in_args):
+                    how = kw.get("how", "inner" if meth == "merge" else "left")
+                    side = "left" if in_recv else "right"
+                    if how not in ("outer", side):
+                        lost = f"`{meth}(how={how!r})` with the spread days on the {side}"
+                elif meth == "reindex" and in_recv:
+                    tgt = pos[0] if pos else kw.get("index", kw.get("labels"))
+                    if not (isinstance(tgt, Sym) and _contains(tgt, a0)):
+                        lost = f"`reindex({canon(tgt)[:70]})`: only the labels of that calendar survive"
+                elif meth in ("truncate", "head", "tail", "dropna", "drop_duplicates", "between_time", "first", "last") and in_recv:
+                    lost = f"`{meth}(...)`"
+                if lost:
+                    bad.setdefault("spread-to-days", f"days of the spread series are selected away by {lost}: a bill spread over its own days loses the days the calendar does not list (e.g. the days of the first "
+                                                     f"month before the first reading when finer data is rolled up to month starts), and with them part of the billed usage {ctx}")
         # ---- final-nan-convention
         if not cl:
             bad.setdefault("spread-to-days", f"the bills are not cleaned by clean_billing_daily_data before they are spread {ctx}")
